@@ -4,6 +4,7 @@ package main
 // with the full state dumped and compared after the mutating steps.
 
 import (
+	"sync/atomic"
 	"encoding/binary"
 	"errors"
 	"fmt"
@@ -30,6 +31,8 @@ type storeRig struct {
 	all   []storage.PeerStore // redis: several tracker instances sharing one Redis
 	mr    *miniredis.Miniredis
 	clock int64
+	fails []*int32 // redis: fault switches, one per instance (installed on first use)
+	down  bool
 }
 
 var sharedRedis *miniredis.Miniredis
@@ -199,6 +202,24 @@ func storeOp(c *Ctx, op string, a map[string]string) {
 				return "new-failed"
 			}
 			rig = &storeRig{kind: "memory", ps: ps}
+			return "ok"
+		case "st.fail":
+			if rig.kind != "redis" {
+				return "n/a"
+			}
+			if rig.fails == nil {
+				for _, p := range rig.all {
+					rig.fails = append(rig.fails, redis.VerifFailSwitch(p))
+				}
+			}
+			rig.down = a["on"] == "1"
+			for _, f := range rig.fails {
+				v := int32(0)
+				if rig.down {
+					v = 1
+				}
+				atomic.StoreInt32(f, v)
+			}
 			return "ok"
 		case "st.clock":
 			t, _ := strconv.ParseInt(a["t"], 10, 64)
